@@ -71,12 +71,13 @@ def bulk_cluster_case(rng, b, dt=None, m=None):
     return {"dt": dt, "level": 12, "order": 0, "gcds": rng.below(2), "chunks": [xs], "kinds": ["bulk+clusters"], "drain": 0}
 
 def run(ctx):
-    ctx.explanation = ('metadata/offset/varint size theorems are unconditional; the body bound is now a theorem for tables without a '
-                       'run-length prefix (C14h.body_bound: disjoint ranges + truthful counts + codes costing Huffman\'s cost => '
-                       'body <= n(W+1)+7 bits; Huffman optimality and cost-invariance under tie-breaking proved in Lemmas/HuffmanOpt), '
-                       'its hypotheses are evaluated per chunk (disj, counts, huffopt); partial for tables WITH a run-length prefix '
-                       '(weights are an f64 estimate of the number of runs): evaluated per instance on the exact sizes; '
-                       'known finding: bool delta moments take one byte each')
+    ctx.explanation = ('metadata/offset/varint size theorems are unconditional; the body bound is a theorem: C14h.body_bound for tables without a '
+                       'run-length prefix (disjoint ranges + truthful counts + codes costing Huffman\'s cost => body <= n(W+1)+7 bits; Huffman '
+                       'optimality and cost-invariance under tie-breaking proved in Lemmas/HuffmanOpt) and C18s.c14_sparse for tables with a '
+                       'single-valued run-length prefix (=> body <= n(W+4) for W >= 9, n(W+5) for W = 8; the prefix\'s code has <= 2 bits by '
+                       'HuffCode.heavy_length_le_two); the hypotheses are evaluated per chunk (disj, counts, huffopt, jlen, heavy) and the exact '
+                       'sizes compared; not covered by a theorem: a multi-valued run-length range (offsets inside runs), W = 1 (bool) with '
+                       'run-length; known finding: bool delta moments take one byte each')
     ctx.rule = ("enc stream on adversarial distributions (uniform full range, alternating extremes, thousands of tiny clusters at "
                 "level 12, short dominant runs, type extremes, every dtype): the model computes the exact body bits and the exact "
                 "metadata bits from the decoded syntax tree (equal to the real sizes because the spec re-encoding reproduces the "
@@ -129,6 +130,10 @@ def judge(ctx, res, worstbox):
             # weights (C14h/HuffmanOpt: every tie-breaking of make_huffman_code has that cost, and it is minimal)
             if "huffopt" in ch:
                 ctx.count("huffopt:" + ch["huffopt"] + ("-runlen" if "runlen" in ch.get("tags", "").split(",") else ""))
+                if "runlen" in ch.get("tags", "").split(",") and int(ch["nprefs"]) >= 2 and ch["huffopt"] == "1" and \
+                        not (ch.get("jlen") in ("1", "2") and ch.get("heavy") == "1"):
+                    ctx.disagree("sparse-hyp", line, "jlen in 1..2 and heavy=1", "jlen=%s heavy=%s huffE=%s" % (ch.get("jlen"), ch.get("heavy"), ch.get("huffE")),
+                                 "hypotheses of C18s.c14_sparse do not hold for this chunk with a run-length prefix")
                 if ch["huffopt"] == "0":
                     ctx.disagree("huffopt", line, "sum count*len(code) == huffCost(weights)",
                                  "chunk %d: the codes in the file cost more or less than the Huffman cost of their weights" % i,
